@@ -49,8 +49,7 @@ SKIPPED = [
     "assortativity when the end-point degrees have zero variance or there is no link "
     "(0/0 or ZeroDivisionError, undocumented)",
     "matching_index entries for pairs of nodes that both have no neighbour (0/0, undocumented)",
-    "average_neighbors_degree on graphs with an isolated node (raises ValueError from a shape "
-    "mismatch k[k != 0]; undocumented) and max_neighbors_degree entries of isolated nodes",
+    "average_neighbors_degree / max_neighbors_degree entries of isolated nodes (no neighbour: undocumented)",
     "local_vulnerability when the global efficiency is 0 or N < 3 (0/0)",
     "nsi_newman_betweenness and nsi_arenas_betweenness(stopping_mode='twinness'): no definition-level oracle "
     "(source smearing / stopping probabilities not pinned by a docstring); only the component-wise relation is "
@@ -320,8 +319,9 @@ def check_undirected(c, net, A, D, exhaustive_subsets):
     connected = S.is_connected(D)
     tri = any(x != 0 for x in S.local_clustering(A))
     # ---- neighbourhood
-    if all(k):
-        c.cmp("average_neighbors_degree/mean", net.average_neighbors_degree, S.average_neighbours_degree(A))
+    # (also on graphs with isolated nodes since the repair of the k[k != 0] divisor: the value of a node without neighbours
+    #  is not asserted, the other entries are)
+    c.cmp("average_neighbors_degree/mean", net.average_neighbors_degree, S.average_neighbours_degree(A))
     c.cmp("max_neighbors_degree/max", net.max_neighbors_degree, S.max_neighbours_degree(A))
     c.cmp("matching_index/jaccard", net.matching_index, S.matching_index(A),
           nontrivial=any(0 < (x or 0) < 1 for row in S.matching_index(A) for x in row))
